@@ -20,7 +20,7 @@ CHECKS = [
          ref="4/C03"),
     dict(id="C04", engine="actor-scenario", technique="TLC exhaustive on Actor.tla + B-scenario: every behaviour of an edge cover of the scenario-refinement state graph replayed on the real engine with gated deliveries; recorded histories judged by TLC (ActorTrace.tla)",
          text="Actor.tla (process.Start / Invoke / recover / tryRestart / cleanup phases, restart buffer, inbox status, children table) is model-checked for the lifecycle grammar over every placement of panics, pills and sends; an edge cover of the scenario refinement is replayed on the real engine (every Receive gated, faults injected where the behaviour says) and the recorded delivery log must satisfy the same TLA+ predicate (InitFirst, StartedSecond, StoppedLast, IncOrder, SpawnRet), evaluated by TLC.",
-         note="bounded instances (<= 3 actors, <= 3 messages, <= 2 stop requests, <= 2 panics, MaxRestarts 0..2); gating through Receive only; environment actions issued at settled states",
+         note="bounded instances (<= 3 actors, <= 3 messages, <= 2 stop requests, <= 2 panics, MaxRestarts 0..2), including succession (the final Stopped handler spawns a successor under the same id while messages are left in the old inbox) and a panicking Stopped handler; gating through Receive only; environment actions issued at settled states; after the last step the harness keeps watching for deliveries the behaviour does not predict and logs them",
          ref="4/C04, 2.2 B-scenario"),
     dict(id="C05", engine="actor-scenario", technique="TLC exhaustive on Actor.tla + B-scenario replay with injected panics; histories judged by TLC (ActorTrace.tla: AtMostOnce, InOrder, RestartsNumbered, Complete, witness)",
          text="Every position of a panic (Initialized, Started, any message of a batch, inside a graceful drain, during replay of the restart buffer) is enumerated by TLC; each behaviour is replayed on the real engine and the recorded history must show no redelivery, original order, correctly numbered ActorRestartedEvents, completeness at quiescence and a live witness actor / process.",
@@ -44,7 +44,7 @@ CHECKS = [
          ref="4/C09"),
     dict(id="C10", engine="actor-scenario", technique="TLC exhaustive on Actor.tla with SpawnAgain (duplicate spawn while registered, respawn after stop) + B-scenario replay; histories judged by TLC (T_C10)",
          text="Spawn of an id that was spawned before is an environment action of Actor.tla: while the actor is registered it must publish ActorDuplicateIdEvent and change nothing (Producer not run, pending messages delivered once and in order), after the actor has gone it starts a fresh process. Replayed at every settled point of the lifecycle (before Started, with messages pending, during a graceful drain, after a crash). The recorded histories must satisfy: an actor handling anything but its final Stopped is resolvable through Registry.GetPID, every new incarnation follows a Stopped one, one DuplicateIdEvent per duplicate spawn, Producer invocations = incarnations seen.",
-         note="sequential histories (spawns issued at settled states); concurrent spawns of one id racing inside Registry.add are NOT covered yet (needs the lock-level B-graph of Registry.tla, see DESIGN.md section 8)",
+         note="engine-level histories are sequential (spawns issued at settled states; plus succession: a successor spawned under the same id from inside the predecessor's final Stopped handler); concurrent Spawn / Spawn / Remove / get of one id racing inside the registry are covered at lock level: Registry.tla (one action per critical section of registry.go) is explored exhaustively and every edge of its graph is replayed on the real Registry through gate shims (cmd/regconc); 2-3 threads, 1 id",
          ref="4/C10"),
     dict(id="C11", engine="reqresp-scenario", technique="TLC exhaustive on ReqResp.tla + B-scenario replay of every maximal history (cmd/reqscen); deadline races by a free-running stress judged by the clauses that hold for either outcome",
          text="ReqResp.tla models Request (one-shot Response under a fresh PID), replies into the one-slot channel or to dead letter, Result returning a reply or timing out and unregistering either way; TLC checks correlation, unregistration and late-reply-is-dead-letter over all histories of 2..3 concurrent requests with 0..3 replies each placed before / during / after Result, and exports each history with its outcomes; each is executed on a real engine (real timeouts) and outcomes, dead letters, registry state and 'no timeout before the deadline' are compared. Regression configs (fixed response PID; unregister only on timeout) must fail in TLC.",
@@ -58,9 +58,9 @@ CHECKS = [
          text="Every delivery of every behaviour (spawn, user, stop, poison, crash recover, restart, budget exhausted) must have passed through the configured chain exactly once, in order; checked by TLC on the recorded histories.",
          note="as C04; chain lengths 0..3 rotate over scenarios",
          ref="4/C13"),
-    dict(id="C14", engine="ring-table", technique="TLC exhaustive on RingBuffer.tla (refinement to abstract FIFO) + B-table edge-cover of the real RingBuffer per initial capacity",
+    dict(id="C14", engine="ring-table", technique="TLC exhaustive on RingBuffer.tla (refinement to abstract FIFO) + B-table edge-cover of the real RingBuffer per initial capacity; TLC exhaustive on RingConc.tla (lock-level, concurrent producers/consumer) + B-graph edge-cover replay through gate shims",
          text="The code's head/tail/mod/len arithmetic is modelled literally next to a ghost queue; TLC proves the refinement for every call sequence of the bounded instance and every initial capacity; the real RingBuffer[int] is driven along an edge cover of each graph (every reachable geometry x every call) and its API results are compared with the abstract queue's.",
-         note="sequences with <= 6 (quick) / 9 (thorough) pushes, PopN(1..3/4), capacities 1..4 (quick) / up to 8 (thorough); element type int",
+         note="sequential: sequences with <= 6 (quick) / 9 (thorough) pushes, PopN(1..3/4), capacities 1..4 (quick) / up to 8 (thorough); element type int; retained PopN batches are re-read after later pushes (no aliasing). Concurrent: RingConc.tla models every lock acquire/release and atomic of Push/Pop/PopN/Len with 2-3 threads; every edge of its graph is replayed on the real RingBuffer through gate shims for sync.Mutex and atomic (cmd/ringconc)",
          ref="4/C14"),
     dict(id="C15", engine="wire-table", technique="TLC exhaustive on Wire.tla (writer loop + reader loop) over all bounded batches; every case exported by TLC with its expected deliveries and run through the real writer, vtproto marshal/unmarshal, reader and SendLocal (B-table)",
          text="Wire.tla models streamWriter.Invoke (type / sender / target tables, per-message indices, serialise failure) and streamReader.Receive one loop iteration per action; TLC checks Decode(Encode(batch)) = the serialisable elements in order for every batch of the bounded space and exports each batch with the expected delivery list; each is executed on the real code and only API-visible results (order, target address+id, type, payload, sender, no panic) are compared. Regression configs with each repair switched off must fail in TLC.",
@@ -68,7 +68,7 @@ CHECKS = [
          ref="4/C15, 2.2 B-table"),
     dict(id="C16", engine="wire-table", technique="TLC exhaustive on Wire.tla (hostile mode: arbitrary envelope values) + B-table replay of every envelope through real MarshalVT/UnmarshalVT and streamReader.Receive",
          text="Every envelope of the bounded value space (tables of size 0..2, every index in {-2,-1,0,1,2,MaxInt32}, unknown type names, undecodable payloads, 1..2 messages) is decoded by the model and by the real reader; the real reader must not panic, must deliver exactly the prefix of messages whose own indices are valid (to Targets[ti] with TypeNames[tni]) and must end the stream with an error exactly when the model does.",
-         note="quantifies over Envelope values, not raw byte strings (robustness of the generated UnmarshalVT against arbitrary bytes is not claimed); the dRPC server is replaced by an in-memory stream, so 'the node exits' is observed as a panic escaping Receive",
+         note="quantifies over Envelope values, not raw byte strings (robustness of the generated UnmarshalVT against arbitrary bytes is not claimed); the dRPC server is replaced by an in-memory stream, so 'the node exits' is observed as a panic escaping Receive; multi-envelope streams (an earlier envelope's tables must not leak into the next); concurrent inbound streams run a sample of the cases on parallel readers under the Go race detector (a reported race or a cross-stream delivery is a violation)",
          ref="4/C16"),
     dict(id="C18", engine="cluster-scenario", technique="TLC exhaustive on ClusterAgent.tla (membership mode) + B-scenario: edge cover of the state graph replayed on a real Agent, API-visible state compared after every step",
          text="Every pair (current view, next snapshot) over the node itself plus three further members with different kind sets, with and without duplicated entries, in sequences of up to 3 (quick) / 4 (thorough) snapshots is enumerated by TLC, which checks 'view = snapshot', 'one join event per new member, one leave event per dropped member, none for the others' (action property) and 'HasKind(k) iff a member of the view advertises k'; each edge is executed on a real Agent (snapshots sent as *Members to the agent PID) and Members(), HasKind() for every kind and the join / leave events seen by a subscribed monitor must equal TLC's.",
